@@ -425,4 +425,151 @@ theorem traffic_is_instance (c : TCtx) (n : Net) (m : Mem) :
   ⟨patchStable_is_instance c n m, restoreStable_is_instance c n m, restoreGateway_is_instance c n m,
    removeCanary_is_instance c n m, routeAll_is_instance c n m, finalising_is_instance c n m, doTR_is_instance c n m⟩
 
+
+/-! ## the Manager theorems instantiated -/
+
+/-- a weight step of the real strategy type has something to route -/
+theorem weight_step_is_a_step (s : Strat) (w : Int) (hw : s.weight = some w) : isStep stratOps s = true := by
+  unfold Strat.weight at hw
+  cases ht : s.traffic with
+  | none => rw [ht] at hw; cases hw
+  | some t => simp [isStep, stratOps, ht]
+
+/-- **C03 for the Gateway API (`doneX_means_routed` instantiated)** — a ref with a Gateway: when `DoTrafficRouting`
+    reports *done* for a weight step `w`, both Services are in place and in the stored HTTPRoute **every rule with
+    a stable ref has stable weight `100 − w` and canary weight `w`** — exactly the step's value. -/
+theorem done_gateway_weights (p : PCfg) (hc : p.custom = false) (hi : p.ingress = none) (hg : p.gateway = true)
+    (c : XCtx Strat) (a : Api) (n : XNet CNet) (m : Mem) (hinv : gwInv ⟨p.stable, p.canary⟩ n.g.2.2)
+    (href : c.hasRef = true) (w : Int) (hw : c.strategy.weight = some w) (hne : w ≠ -1) (hm : c.strategy.mts = [])
+    (hd : (doTrafficRoutingX stratOps (mkProvider p) c a n m).done = true) :
+    servicesInPlace c (doTrafficRoutingX stratOps (mkProvider p) c a n m).net = true ∧
+    ∃ rules, (doTrafficRoutingX stratOps (mkProvider p) c a n m).net.g.2.2 = some rules ∧
+      ∀ (i : Nat) (r : RV.Gateway.Rule), rules[i]? = some r → RV.Oracle.C13.hasSvc r.refs p.stable = true →
+        (RV.Oracle.C13.findSvc r.refs p.stable).map (·.weight) = some (some (100 - w)) ∧
+        (RV.Oracle.C13.findSvc r.refs p.canary).map (·.weight) = some (some w) := by
+  obtain ⟨hmk, hL⟩ := newNetworkProvider_gateway_lawful p hc hi hg
+  rw [hmk] at hd ⊢
+  obtain ⟨_, hin, hspec, _, _⟩ := doneX_means_routed stratOps hL c a n m hinv href
+    (weight_step_is_a_step c.strategy w hw) hd
+  refine ⟨hin, ?_⟩
+  simp only [gwSpecB] at hspec
+  cases hst : (doTrafficRoutingX stratOps (some (onSnd (onSnd (gwProvider ⟨p.stable, p.canary⟩)))) c a n m).net.g.2.2 with
+  | none => rw [hst] at hspec; cases hspec
+  | some rules =>
+    rw [hst] at hspec
+    simp only [Bool.and_eq_true, beq_iff_eq] at hspec
+    refine ⟨rules, rfl, ?_⟩
+    intro i r hr hs
+    have hb : RV.Gateway.buildDesired ⟨p.stable, p.canary⟩ rules (some w) [] = .ok rules := by
+      rw [← hw, ← hm]; exact hspec.1
+    obtain ⟨r', hr', h1, h2⟩ := RV.Props.C13.weight_step_split ⟨p.stable, p.canary⟩ hinv.1 rules rules w hb hne i r hr hs
+    rw [hr] at hr'
+    cases hr'
+    exact ⟨h1, h2⟩
+
+/-- **C03 for the composite (`doneX_means_routed` instantiated)** — a ref with custom refs, an Ingress **and** a
+    Gateway: when `DoTrafficRouting` reports *done*, the Services are in place and **every** member carries the
+    step: each custom object is `f(original, step)`, the canary annotations are `script(stable, step)` on exactly
+    the re-targeted stable paths, the HTTPRoute satisfies the step's clause. -/
+theorem done_full_all_members (p : PCfg) (cls : RV.Ingress.Class)
+    (us : List (Option RV.Custom.Script × RV.Custom.Obj)) (st : RV.Ingress.Ingress)
+    (hc : p.custom = true) (hi : p.ingress = some (some cls)) (hg : p.gateway = true)
+    (c : XCtx Strat) (a : Api) (n : XNet CNet) (m : Mem) (hinv : CInv p cls us st n.g)
+    (href : c.hasRef = true) (hs : isStep stratOps c.strategy = true)
+    (hd : (doTrafficRoutingX stratOps (mkProvider p) c a n m).done = true) :
+    servicesInPlace c (doTrafficRoutingX stratOps (mkProvider p) c a n m).net = true ∧
+    cuStatelessB p.codec c.strategy us (doTrafficRoutingX stratOps (mkProvider p) c a n m).net.g.1 = true ∧
+    igFreshB ⟨cls, p.ingName, p.stable, p.canary⟩ c.strategy (doTrafficRoutingX stratOps (mkProvider p) c a n m).net.g.2.1 = true ∧
+    gwSpecB ⟨p.stable, p.canary⟩ c.strategy (doTrafficRoutingX stratOps (mkProvider p) c a n m).net.g.2.2 = true := by
+  obtain ⟨P, μ, hmk, hL⟩ := newNetworkProvider_full_lawful p cls us st hc hi hg
+  rw [hmk] at hd ⊢
+  obtain ⟨_, hin, hspec, _, _⟩ := doneX_means_routed stratOps hL c a n m hinv href hs hd
+  exact ⟨hin, hspec.1.2, hspec.2.1.2, hspec.2.2⟩
+
+/-- **C05 for the composite (`finalisingX_order` instantiated)**: *done* ⇒ every member is clean -/
+theorem finalising_done_full_clean (p : PCfg) (cls : RV.Ingress.Class)
+    (us : List (Option RV.Custom.Script × RV.Custom.Obj)) (st : RV.Ingress.Ingress)
+    (hc : p.custom = true) (hi : p.ingress = some (some cls)) (hg : p.gateway = true)
+    (c : XCtx Strat) (a : Api) (n : XNet CNet) (m : Mem) (hinv : CInv p cls us st n.g) (href : c.hasRef = true)
+    (hd : (finalisingTrafficRoutingX (mkProvider p) c a n m).done = true) :
+    cleanB p (finalisingTrafficRoutingX (mkProvider p) c a n m).net.g = true := by
+  obtain ⟨P, μ, hmk, hL⟩ := newNetworkProvider_full_lawful p cls us st hc hi hg
+  rw [hmk] at hd ⊢
+  obtain ⟨_, _, _, _, _, _, _, _, _, hdone, _⟩ := finalisingX_shape hL c a n m hinv href
+  obtain ⟨hcl, _⟩ := hdone hd
+  simp [cleanB, hc, hi, hg, hcl.1, hcl.2.1, hcl.2.2]
+
+/-! ## known finding `sameServiceGateway` (outside `gwInv`: the two Service names coincide) -/
+
+section finding
+open RV.Gateway
+
+/-- `DisableGenerateCanaryService` / `OnlyTrafficRouting`: the providers get the stable Service name twice -/
+def sameConf : Conf := { stable := "svc", canary := "svc" }
+
+/-- the user's route: one rule to the Service -/
+def sameRoute : List Rule :=
+  [{ mts := [], filters := "", refs := [{ kind := some "Service", name := "svc", weight := some 1, rest := "{}" }] }]
+
+/-- The full-strength statement of `finalise-restores` for the Gateway provider is FALSE when the canary Service
+    name equals the stable one (which is what `DisableGenerateCanaryService` and `OnlyTrafficRouting` hand to
+    *every* provider): a weight step followed by `Finalise` **deletes the user's rule** — the HTTPRoute is left
+    without any rule for the Service.  (`gateway_lawful` excludes the region through `confOk` in `gwInv`.) -/
+theorem gateway_sameService_full_FALSE :
+    RV.Oracle.C13.confOk sameConf = false ∧
+    (finalise sameConf (ensureRoutes sameConf (some sameRoute) { traffic := some (.pct 20), ms := [] }).store).store
+      = some [] := by decide
+
+/-- … and a match step never converges there: every round doubles the generated rules (C07) -/
+theorem gateway_sameService_grows :
+    let s : Step := { traffic := none, ms := [{ path := none, headers := [⟨some "Exact", "user", "a"⟩], queryParams := [] }] }
+    let r1 := (ensureRoutes sameConf (some sameRoute) s).store
+    let r2 := (ensureRoutes sameConf r1 s).store
+    let r3 := (ensureRoutes sameConf r2 s).store
+    r1.map List.length = some 2 ∧ r2.map List.length = some 4 ∧ r3.map List.length = some 8 := by decide
+
+end finding
+
+/-! ## non-vacuity (tests on literals: the hypotheses of the theorems are met by ordinary states) -/
+
+section examples
+open RV.Props.C13 (c0 o0)
+
+/-- the invariant of the Gateway provider holds of a non-trivial user route -/
+example : gwInv c0 (some o0) := ⟨by decide, fun r h => by cases h; decide⟩
+
+/-- a Gateway-only ref: the first round of a 30 % step (Services in place) updates the route and is not done, the
+    second round is done and carries the split 70 / 30 -/
+def exCtx : XCtx Strat :=
+  { hasRef := true, grace := 3, strategy := { traffic := some "30%", mts := [], rhm := none }, disableGen := false,
+    stableRev := "v1", canaryRev := "v2", lastUpdate := .elapsed }
+def exNet : XNet (Option (List RV.Gateway.Rule)) :=
+  { stableExists := true, stableSel := some "v1", canarySvc := some "v2", g := some o0 }
+
+example : (doTrafficRoutingX stratOps (some (gwProvider c0)) exCtx Api.ok exNet Mem.empty).done = false ∧
+    (doTrafficRoutingX stratOps (some (gwProvider c0)) exCtx Api.ok exNet Mem.empty).writes = ["updateRoute"] := by
+  decide
+
+example :
+    let n1 := (doTrafficRoutingX stratOps (some (gwProvider c0)) exCtx Api.ok exNet Mem.empty).net
+    (doTrafficRoutingX stratOps (some (gwProvider c0)) exCtx Api.ok n1 Mem.empty).done = true ∧
+    gwSpecB c0 exCtx.strategy n1.g = true := by decide
+
+/-- from a fresh network the first round only creates the canary Service and pins the stable one: the provider is
+    not touched (hypothesis of `servicesX_before_routes`) -/
+example : (doTrafficRoutingX stratOps (some (gwProvider c0)) exCtx Api.ok
+      { exNet with stableSel := none, canarySvc := none } Mem.empty).writes = ["createCanarySvc", "patchStable"] := by
+  decide
+
+/-- a read fault on the second `Get` (the HTTPRoute) is reported -/
+example : (doTrafficRoutingX stratOps (some (gwProvider c0)) exCtx { r := some 3 } exNet Mem.empty).err = true := by
+  decide
+
+/-- the clean-up with the grace period off: un-pin, provider, canary Service — in the proved order -/
+example : (finalisingTrafficRoutingX (some (gwProvider c0)) { exCtx with grace := 0 } Api.ok
+      { exNet with g := (doTrafficRoutingX stratOps (some (gwProvider c0)) exCtx Api.ok exNet Mem.empty).net.g }
+      Mem.empty).writes = ["unpinStable", "updateRoute", "deleteCanarySvc"] := by decide
+
+end examples
+
 end RV.Props.TrafficX
